@@ -135,10 +135,20 @@ func TestC18(t *testing.T) {
 			switch rapid.IntRange(0, 4).Draw(rt, "kind") {
 			case 0, 1: // version
 				s := gen.Version(rt, e.Name, "v")
+				long := false
+				if gen.Chance(rt, "long", 1, 10) {
+					// a long version whose length sits just below a typical limit, so that the padding crosses it
+					if s2 := gen.Lengthen(rt, e, s, "len"); s2 != s {
+						s, long = s2, true
+					}
+				}
 				partner := gen.Neighbor(rt, e, s, "partner")
 				kc := known.Case{Check: "version", Eco: e.Name, Inputs: []string{s, lp, rp, partner}}
 				if r.check(rt, kc) && lp+rp != "" {
 					cls := e.Name + "/version-padded"
+					if long {
+						cls = e.Name + "/long-version-padded"
+					}
 					if v, err := e.NewVersion(s); err == nil {
 						if p, err := e.NewVersion(partner); err == nil && v.Compare(p) != 0 {
 							cls += "-partner-differs"
